@@ -253,6 +253,9 @@ class ReactionQueryReader(object):
         return radical, charge, valence
 
     def ReadAtomType(self, tree):
+        if tree[0][0] == 'AtomPrefix':
+            raise NotImplementedError("AtomTypeModify: atom prefix '"
+                                      + tree[0][1] + "' not supported")
         assert tree[0][0] == 'Symbols'
         symbol = tree[0][1][0]
         radical = charge = valence = 0
